@@ -380,7 +380,7 @@ def check(ctx):
                            f"the membership test on {P} has the wrong polarity: the {'deleted' if drop_role else 'kept'} elements are those "
                            f"{'in' if drop_role else 'not in'} {P}, so the restriction returns the complement of what was requested",
                            clause="reading with a column/key restriction equals reading everything and then selecting those")
-    ctx.count("membership filters on restriction parameters", n_pol, 3)
+    ctx.count("membership filters on restriction parameters", n_pol, 1)
     # ------------------------------------------------------------- TYPE-flow
     # `for name, dtype in dtypes.items():` -- both loop variables must reach a conversion in the loop body
     n_tf = 0
@@ -438,6 +438,22 @@ def check(ctx):
                        f"rebinding empties (e.g. only the implicit column) then means `no restriction`, and every column is read",
                        clause="reading with a column/key restriction equals reading everything and then selecting those")
     ctx.note(f"RESTR-given: {n_given} truthiness test(s) of restriction parameters examined")
+    # positions of requested names: <names>.index(x) finds the FIRST field of that name, while the unrestricted read
+    # (dict(zip(names, row))) keeps the LAST -- with a duplicated header name the restricted read returns another field
+    for q in READERS:
+        fn = repo.functions.get(q)
+        if fn is None:
+            continue
+        for f_, c in calls_in(fn, False):
+            if isinstance(c.func, ast.Attribute) and c.func.attr == "index" and len(c.args) == 1 and isinstance(c.func.value, ast.Name) \
+                    and any(isinstance(g, ast.comprehension) and any(p_ in norm(g.iter) for p_ in RESTRICT if p_ in fn.kwonly + fn.params)
+                            for g in [x for n in body_nodes(fn.node) if isinstance(n, (ast.ListComp, ast.SetComp, ast.GeneratorExp, ast.DictComp))
+                                      for x in n.generators if any(y is c for y in ast.walk(n))]):
+                ctx.ob("TNT-order", fn, norm(c), c, False,
+                       f"{norm(c)} gives the position of the FIRST field named so; reading everything keeps the LAST field of a duplicated name "
+                       f"(dict(zip(names, row))): for a file whose header repeats a name the restricted read returns the other field's value",
+                       clause="each value staying under its own name")
+
     # TYPE-late: the type map is applied to what was read; it is never handed to the foreign parser, whose own typed
     # parsing differs from parse-then-cast ("007" read as a string column stays "007", read-then-cast gives "7")
     from ..dataflow import depends_on
